@@ -371,6 +371,32 @@ impl CT {
         }
         false
     }
+    /// `or` of two comparisons over integer operands (all variables of the API cases are integer
+    /// variables; the method-style builder folds `int(a).div(b)` into a FLOAT literal, which keeps the
+    /// old lowering), other than the same-variable special case: lowered as a reified disjunction
+    /// (`b1 <=> c1`, `b2 <=> c2`, `b1 or b2`) since the repair `fix: or of two comparisons is a disjunction`
+    fn reified_or(&self, fs: bool) -> bool {
+        if let CT::Or(a, b) = self {
+            if let (CT::Cmp(l1, _, r1), CT::Cmp(l2, _, r2)) = (&**a, &**b) {
+                return !self.special_or() && (fs || ![l1, r1, l2, r2].iter().any(|e| folded_const_div(e, false)));
+            }
+        }
+        false
+    }
+    /// an `or` node that is still lowered as a conjunction (finding `or-lowered-as-and`)
+    fn or_as_and(&self, fs: bool) -> bool {
+        matches!(self, CT::Or(..)) && !self.special_or() && !self.reified_or(fs)
+    }
+    /// a `!=` that is materialised through the no-op `NotEquals`: not a top-level linear row and not
+    /// a side of a reified `or` (`int_ne_reif` does enforce it)
+    fn has_noop_ne(&self, top: bool, fs: bool) -> bool {
+        match self {
+            CT::Cmp(l, op, r) => *op == Cmp::Ne && (!top || top_lin(l, r, fs).is_none()),
+            CT::Or(x, y) => !self.reified_or(fs) && (x.has_noop_ne(false, fs) || y.has_noop_ne(false, fs)),
+            CT::And(x, y) => x.has_noop_ne(false, fs) || y.has_noop_ne(false, fs),
+            CT::Not(x) => x.has_noop_ne(false, fs),
+        }
+    }
     /// the tree as `Constraint::not` builds it (since fix 7500ca2): the negation of a comparison is
     /// the complementary comparison, a double negation cancels; only negated and/or nodes stay
     fn norm(&self) -> CT {
@@ -408,8 +434,10 @@ impl CT {
             }
             CT::And(x, y) => Some(x.holds_n(a, q, false, fs)? & y.holds_n(a, q, false, fs)?),
             CT::Or(x, y) => {
-                let (p, r) = (x.holds_n(a, q, false, fs)?, y.holds_n(a, q, false, fs)?);
-                if q.or_and && !self.special_or() { Some(p && r) } else { Some(p || r) }
+                // the two sides of a reified `or` are reified comparisons: `!=` is enforced there
+                let qs = if self.reified_or(fs) { Quirks { ne_noop: false, ..q } } else { q };
+                let (p, r) = (x.holds_n(a, qs, false, fs)?, y.holds_n(a, qs, false, fs)?);
+                if q.or_and && self.or_as_and(fs) { Some(p && r) } else { Some(p || r) }
             }
             CT::Not(x) => {
                 let p = x.holds_n(a, q, false, fs)?;
@@ -1547,12 +1575,10 @@ fn present(case: &Case) -> Present {
                 let fs = *style == 1;
                 let t = &t.norm();
                 p.not |= t.any(&|t| matches!(t, CT::Not(_)));
-                p.or |= t.any(&|t| matches!(t, CT::Or(..)) && !t.special_or());
-                t.each_cmp(true, &mut |l, op, r, top| {
+                p.or |= t.any(&|t| t.or_as_and(fs));
+                p.ne_noop |= t.has_noop_ne(true, fs);
+                t.each_cmp(true, &mut |l, _, r, top| {
                     let lin = top_lin(l, r, fs);
-                    if op == Cmp::Ne && (!top || lin.is_none()) {
-                        p.ne_noop = true;
-                    }
                     if top && !simple_var_val(l, r) {
                         if let Some(cs) = lin {
                             p.zero_lin |= cs.iter().all(|c| c.1 == 0);
@@ -1626,24 +1652,27 @@ fn quotient_inexact(x: Rat, y: Rat) -> bool {
     }
 }
 
+/// a division of two constants inside `e`, which the method-style builder folds into a FLOAT literal
+fn folded_const_div(e: &Ex, zero_only: bool) -> bool {
+    match e {
+        Ex::B(op, x, y) => {
+            if *op == Bin::Div {
+                if let (Ex::C(_), Ex::C(d)) = (x.as_built(false), y.as_built(false)) {
+                    if !zero_only || d == 0 {
+                        return true;
+                    }
+                }
+            }
+            folded_const_div(x, zero_only) || folded_const_div(y, zero_only)
+        }
+        _ => false,
+    }
+}
+
 /// method-style `int(a).div(b)` on two constants is folded by the builder into a *float* constant
 /// (`zero_only`: only divisions by the literal 0, which fold to ±infinity)
 fn has_folded_const_div(case: &Case, zero_only: bool) -> bool {
-    fn walk(e: &Ex, zero_only: bool) -> bool {
-        match e {
-            Ex::B(op, x, y) => {
-                if *op == Bin::Div {
-                    if let (Ex::C(_), Ex::C(d)) = (x.as_built(false), y.as_built(false)) {
-                        if !zero_only || d == 0 {
-                            return true;
-                        }
-                    }
-                }
-                walk(x, zero_only) || walk(y, zero_only)
-            }
-            _ => false,
-        }
-    }
+    let walk = folded_const_div;
     let mut hit = false;
     for c in &case.cons {
         match c {
@@ -2760,6 +2789,15 @@ fn note_vocabulary(out: &mut Out, case: &Case) {
             }
             if t.any(&|t| matches!(t, CT::Or(..))) {
                 out.stat(if t.any(&|t| t.special_or()) { "fluent.or.same-var-eq" } else { "fluent.or" });
+                if let Con::Fluent { style, .. } = c {
+                    let fs = *style == 1;
+                    if t.norm().any(&|t| t.reified_or(fs)) {
+                        out.stat("fluent.or.reified-comparisons");
+                    }
+                    if t.norm().any(&|t| t.or_as_and(fs)) {
+                        out.stat("fluent.or.still-conjunction");
+                    }
+                }
             }
             if t.any(&|t| matches!(t, CT::Not(_))) {
                 out.stat("fluent.not");
